@@ -293,31 +293,31 @@ headers, kinds of statements and the names they bind) they had when the model wa
 loop, early exit or rebinding has been added that the model does not describe -/
 theorem modelled_functions_have_the_transcribed_shape :
     MlVerif.Gen.C13.shapeFctFit =
-      "if(callable(self.fct)){self.fct_=;self.fct_inv_=}else{opts=;(self.fct_,self.fct_inv_)=};return" ∧
+      "sig(self, X=None, y=None, sample_weight=None)|if(callable(self.fct)){self.fct_=;self.fct_inv_=}else{opts=;(self.fct_,self.fct_inv_)=};return" ∧
     MlVerif.Gen.C13.shapeFctTransform =
-      "if(y is None){return};return" ∧
+      "sig(self, X, y)|if y is None: return (X, None) ; return (X, self.fct_(y))" ∧
     MlVerif.Gen.C13.shapeFctInv =
-      "if(isinstance(self.fct_inv_, str)){res=}else{res=};return" ∧
+      "sig(self)|if(isinstance(self.fct_inv_, str)){res=}else{res=};return" ∧
     MlVerif.Gen.C13.shapePermFit =
-      "assert;num=;perm=;for(u in y.ravel()){if(num and numpy.isnan(u)){continue};if(u in perm){continue};perm[]=};lin=;if(self.random_state is None){lin=}else{rs=;lin=};perm_keys=;for(u in perm_keys){perm[]=};self.permutation_=;if(hasattr(self, 'knn_')){del self.knn_};if(hasattr(self, 'knn_perm_')){del self.knn_perm_};return" ∧
+      "sig(self, X=None, y=None, sample_weight=None)|assert;num=;perm=;for(u in y.ravel()){if(num and numpy.isnan(u)){continue};if(u in perm){continue};perm[]=};lin=;if(self.random_state is None){lin=}else{rs=;lin=};perm_keys=;for(u in perm_keys){perm[]=};self.permutation_=;if(hasattr(self, 'knn_')){del self.knn_};if(hasattr(self, 'knn_perm_')){del self.knn_perm_};return" ∧
     MlVerif.Gen.C13.shapePermTransform =
-      "if(y is None){return};call _check_is_fitted;if(len(y.shape) == 1 or y.dtype in (numpy.str_, numpy.int32, numpy.int64)){yp=;num=;res=;for(i in range(len(yp))){if(num and numpy.isnan(yp[i])){call append;continue};if(yp[i] not in self.permutation_){if(self.closest){cl=}else{raise}}else{cl=};call append};if(len(res) > 0){yp=};return}else{assert;cl=;call sort;new_perm=;for((cl,current) in cl){new_perm[]=};yp=;for(i in range(y.shape[1])){yp[]=};return}" ∧
+      "sig(self, X, y)|if(y is None){return};call _check_is_fitted;if(len(y.shape) == 1 or y.dtype in (numpy.str_, numpy.int32, numpy.int64)){yp=;num=;res=;for(i in range(len(yp))){if(num and numpy.isnan(yp[i])){call append;continue};if(yp[i] not in self.permutation_){if(self.closest){cl=}else{raise}}else{cl=};call append};if(len(res) > 0){yp=};return}else{assert;cl=;call sort;new_perm=;for((cl,current) in cl){new_perm[]=};yp=;for(i in range(y.shape[1])){yp[]=};return}" ∧
     MlVerif.Gen.C13.shapePermInv =
-      "call _check_is_fitted;res=;res.permutation_=;return" ∧
+      "sig(self)|call _check_is_fitted;res=;res.permutation_=;return" ∧
     MlVerif.Gen.C13.shapeRegFit =
-      "self.transformer_=;call fit;(X_trans,y_trans)=;if(self.regressor is None){self.regressor_=}else{self.regressor_=};if(sample_weight is None){call fit}else{call fit};return" ∧
+      "sig(self, X, y, sample_weight=None)|self.transformer_ = _common_get_transform(self.transformer, True) ; self.transformer_.fit(X, y, sample_weight=sample_weight) ; X_trans, y_trans = self.transformer_.transform(X, y) ; if self.regressor is None: self.regressor_ = LinearRegression() else: self.regressor_ = clone(self.regressor) ; if sample_weight is None: self.regressor_.fit(X_trans, y_trans) else: self.regressor_.fit(X_trans, y_trans, sample_weight=sample_weight) ; return self" ∧
     MlVerif.Gen.C13.shapeRegPredict =
-      "if(not hasattr(self, 'regressor_')){raise};(X_trans,_)=;pred=;inv=;(_,pred_inv)=;return" ∧
+      "sig(self, X)|if not hasattr(self, 'regressor_'): raise NotFittedError(f'This instance {type(self)} is not fitted yet. Call 'fit' with appropriate arguments before using this method.') ; X_trans, _ = self.transformer_.transform(X, None) ; pred = self.regressor_.predict(X_trans) ; inv = self.transformer_.get_fct_inv() ; _, pred_inv = inv.transform(X_trans, pred) ; return pred_inv" ∧
     MlVerif.Gen.C13.shapeClfFit =
-      "self.transformer_=;call fit;(X_trans,y_trans)=;if(self.classifier is None){self.classifier_=}else{self.classifier_=};if(sample_weight is None){call fit}else{call fit};return" ∧
+      "sig(self, X, y, sample_weight=None)|self.transformer_ = _common_get_transform(self.transformer, False) ; self.transformer_.fit(X, y, sample_weight=sample_weight) ; X_trans, y_trans = self.transformer_.transform(X, y) ; if self.classifier is None: self.classifier_ = LogisticRegression() else: self.classifier_ = clone(self.classifier) ; if sample_weight is None: self.classifier_.fit(X_trans, y_trans) else: self.classifier_.fit(X_trans, y_trans, sample_weight=sample_weight) ; return self" ∧
     MlVerif.Gen.C13.shapeClfApply =
-      "call _check_is_fitted;assert;meth=;(X_trans,_)=;pred=;inv=;(_,pred_inv)=;return" ∧
+      "sig(self, X, method)|self._check_is_fitted() ; assert hasattr(self.classifier_, method), f'Unable to find method {method!r} in model {type(self.classifier_)}.' ; meth = getattr(self.classifier_, method) ; X_trans, _ = self.transformer_.transform(X, None) ; pred = meth(X_trans) ; inv = self.transformer_.get_fct_inv() ; _, pred_inv = inv.transform(X_trans, pred) ; return pred_inv" ∧
     MlVerif.Gen.C13.shapeClfClasses =
-      "call _check_is_fitted;inv=;(_,pred_inv)=;return" ∧
+      "sig(self)|self._check_is_fitted() ; inv = self.transformer_.get_fct_inv() ; _, pred_inv = inv.transform(None, self.classifier_.classes_) ; return numpy.sort(pred_inv)" ∧
     MlVerif.Gen.C13.shapeClfPredict =
-      "return" ∧
+      "sig(self, X)|return" ∧
     MlVerif.Gen.C13.shapeClfPredictProba =
-      "return" :=
+      "sig(self, X)|return" :=
   ⟨rfl, rfl, rfl, rfl, rfl, rfl, rfl, rfl, rfl, rfl, rfl, rfl, rfl⟩
 
 /-! ### non-vacuity: concrete instances satisfying the hypotheses -/
